@@ -59,7 +59,7 @@ def build_frame(op: dict[str, Any]) -> bytes:
             return bytes((0xF0,))
         return bytes((code, 0x00, 0xBC, 0xE0, 0x11, 0x01, 0x08, 0x07, 0x01, 0x00, 0x81))
     if k == "group":
-        return W.cemi_ldata(code, PEER, GA1 + op.get("sub", 0), group=True,
+        return W.cemi_ldata(code, PEER, op.get("ga") or GA1 + op.get("sub", 0), group=True,
                             tpci_apci=W.gv_write_small(op.get("v", 1)))
     if k == "broadcast":
         return W.cemi_ldata(code, PEER, 0, group=True, tpci_apci=bytes((0x01, 0x00)))  # A_IndividualAddress_Read
@@ -93,6 +93,10 @@ def gen(seed: int, tier: str) -> dict[str, Any]:
         ops.append({"t": round(rng.choice([rng.uniform(0, horizon), rng.uniform(0, 0.01)]), 6), "op": "frame",
                     "code": code, "tpci": tp, "dst": rng.choice(["own", "own", "foreign"]),
                     "seq": rng.randrange(16), "sub": rng.randrange(3), "v": rng.randrange(64)})
+        if tp == "group" and rng.random() < 0.25:
+            # group addresses at the edges of the 16-bit space (only 0 is the broadcast address)
+            ops[-1]["ga"] = rng.choice([0x0001, 0x00FF, 0x0100, 0x07FF, 0x0800, 0x7FFF, 0x8000, 0x8001, 0xFF00, 0xFFFF,
+                                        rng.randrange(1, 0x10000)])
     n_sends = rng.choice([0, 1, 2, 3, 5, 8])
     sends = {}
     t = 0.0
